@@ -41,3 +41,6 @@ Definition session_id (i : nat) : N := N.of_nat (S i).
 (* connections that were handed to a session goroutine, in order *)
 Definition served (acts : list action) : list nat :=
   flat_map (fun a => match a with ServeConn i => [i] | _ => [] end) acts.
+
+(* the back-off with its three constants as parameters: the translator reads them out of Serve (gen_backoff) *)
+Definition next_delay_with (first factor cap d : N) : N := N.min cap (if d =? 0 then first else d * factor).
